@@ -146,6 +146,19 @@ def mk(lam, helpers, depth=1, tags=(), group="", scope="g"):
             # module-level statements as they are (classes, enums the helpers refer to); not rebound afterwards
             vs.append(Var(h, scope, body, "", byname=True))
             continue
+        elif kind == "async":
+            # F41: calling an `async def` gives a coroutine, not the value of its return expression: never inlined
+            vs.append(Var(h, scope, "async def %s(%s):\n    return %s" % (h, plist, body), "", helper=None, byname=True, stays=True))
+            continue
+        elif kind == "mlstr":
+            # F40: a helper whose body holds a multi-line string literal, its continuation line LEFT of the def's own indentation
+            # when the def is nested (the generated program indents every line of `src` by 4 per enclosing function): `body` has
+            # the placeholder MLS, which is the triple-quoted literal in the program and its value in the model's lambda
+            pad = " " * {"g": 0, "l1": 4, "l2": 8, "l3": 12}[scope]
+            src = "def %s(%s):\n    return %s" % (h, plist, body.replace("MLS", '\"\"\"\nab cdefgh\n  ij\"\"\"'))
+            vs.append(Var(h, scope, src, "%s = 'REBOUND'" % h,
+                          helper=(list(params), body.replace("MLS", repr("\n" + pad + "ab cdefgh\n" + pad + "  ij"))), byname=True))
+            continue
         elif kind in ("bare", "docbare", "ellipsis", "pass", "crash"):
             # callables that cannot be turned into a lambda: they stay calls by name, parse_as_ast never raises because of them.
             # bare: `return` without a value (the Lambda has no body node: rewriting it raises inside safe_parse_wrapper);
@@ -403,6 +416,59 @@ def no_lambda(ctx):
     return out
 
 
+# F40 (multi-line strings in nested defs), F41 (async def), F48 (a called lambda with an assignment expression)
+SRC_HELPERS = [
+    ("ms", ["x"], "x + len(MLS)", "mlstr"),
+    ("ms2", ["x", "s"], "x if s == MLS else -x", "mlstr"),
+    ("ms3", ["x"], "(x, MLS.split())", "mlstr"),
+    ("af", ["x"], "x + 1", "async"),
+    ("af2", ["x", "y"], "x - y", "async"),
+    ("h", ["a"], "a + 1", "def"),
+    ("haf", ["a"], "af(a)", "def"),
+    ("hms", ["a"], "ms(a) * 2", "def"),
+]
+SRC_TEMPLATES = [
+    "lambda {P}: ms({P}.a)", "lambda {P}: ms2({P}.a, {S})", "lambda {P}: ms3({P}.a)", "lambda {P}: hms({P}.a) + ms({P}.b)",
+    "lambda {P}: sum({P}.jets.Select(lambda j: ms(j.pt)))", "lambda {P}: [ms2(j.pt, {S}) for j in {P}.jets]",
+    "lambda {P}: af({P}.a)", "lambda {P}: af2({P}.a, h({P}.b))", "lambda {P}: (af({P}.a), h({P}.a))", "lambda {P}: haf({P}.a)",
+    "lambda {P}: {P}.jets.Select(lambda j: af(j.pt))",
+]
+CALLED_WALRUS = [
+    "lambda t: (lambda q: (t := q) + t)(t.a) + t.b", "lambda e: (lambda q: (q := q + 1) * 2)(e.a)",
+    "lambda e: (lambda q, r: (s := q - r) * s)(e.a, e.b)", "lambda e: (lambda q: [s := q, s + 1][1])(e.a) + h(e.b)",
+    "lambda e: sum(e.jets.Select(lambda j: (lambda q: (j := q + 1) * j)(j.pt)))",
+    "lambda e: (lambda a: (lambda q: (a := q) + a)(e.b) + a)(e.a)", "lambda e: (lambda q, r=2: (q := q + r) * 2)(e.a, 3)",
+    "lambda e: h((lambda q: (w := q) * w)(e.a))",
+]
+SRC_WITNESSES = [("lambda e: ms(e.a)", {"F40", "multi-line-string"}, "l1"), ("lambda e: af(e.a)", {"F41", "async-def"}, "g"),
+                 ("lambda t: (lambda q: (t := q) + t)(t.a) + t.b", {"F48", "assignment-expression"}, "g")]
+
+
+def _src_case(lam, depth, tags, group, scope):
+    used = names_of(lam)
+    hs = [h for h in SRC_HELPERS if h[0] in used]
+    for h in list(hs):
+        for g in SRC_HELPERS:
+            if g[0] in names_of(h[2].replace("MLS", "''")) and g not in hs:
+                hs.insert(0, g)
+    return _keep(mk(lam, hs, depth, tags, group=group, scope=scope))
+
+
+def source_shapes(ctx):
+    out = []
+    the_string = repr("\n    ab cdefgh\n      ij")
+    for t in SRC_TEMPLATES:
+        for p in ("e", "x", "s"):
+            for scope, depth in (("g", 1), ("l1", 1), ("l1", 2), ("l2", 2)):
+                pad = " " * {"g": 0, "l1": 4, "l2": 8}[scope]
+                lam = t.format(P=p, S=repr("\n" + pad + "ab cdefgh\n" + pad + "  ij"))
+                out.append(_src_case(lam, depth, {"source-shapes"}, "source-shapes", scope))
+    for lam in CALLED_WALRUS:
+        for scope, depth in (("g", 1), ("l1", 2)):
+            out.append(_src_case(lam, depth, {"source-shapes", "called-lambda-walrus"}, "source-shapes", scope))
+    return out
+
+
 # Substitution must happen once.  A call that FC4 deliberately leaves un-inlined (its argument names a binder of the
 # callee's body) sits inside an inlined helper; the arguments of the call that stays are already substituted and must not be
 # visited again under the same argument maps.  That shows when the call site's variables are named like the outer helper's
@@ -527,7 +593,8 @@ def starred_and_defaults(ctx):
 
 
 def corpus():
-    out = [_nolambda_case(NOLAMBDA_WITNESS, 1, {"no-lambda", "bare-return"}, group="corpus")] + f34_f36_witnesses() + f30_f31_witnesses()
+    out = [_src_case(lam, 1, tags, "corpus", scope) for lam, tags, scope in SRC_WITNESSES]
+    out += [_nolambda_case(NOLAMBDA_WITNESS, 1, {"no-lambda", "bare-return"}, group="corpus")] + f34_f36_witnesses() + f30_f31_witnesses()
     out.append(mk("lambda a: wn(a.a, [((1, 2), 3), ((4, a.b), 6)])", [("wn", ["k", "rows"], "[k * a + b + c for (a, b), c in rows]", "def")],
                   tags={"FC4", "unpacking-target"}, group="corpus"))
     out.append(mk("lambda e: h(e.x)", [("h", ["p"], "p", "def")], tags={"F06"}, group="corpus"))
@@ -736,7 +803,7 @@ def inlinable_left_by_name(case: Case, tree) -> list:
 
 
 def run(ctx):
-    cs = corpus() + starred_and_defaults(ctx) + stays_by_name(ctx) + resubstitution(ctx) + unpacking_targets(ctx) + no_lambda(ctx) + second_call_cases() + higher_order(ctx) + structured(ctx)
+    cs = corpus() + starred_and_defaults(ctx) + stays_by_name(ctx) + resubstitution(ctx) + unpacking_targets(ctx) + no_lambda(ctx) + source_shapes(ctx) + second_call_cases() + higher_order(ctx) + structured(ctx)
     en = enumerated(ctx)
     cap = ctx.budget(3000, 60000)
     if len(en) > cap:
